@@ -101,7 +101,9 @@ def _run(c):
             ok = list(layer.weight.shape) == s and all(t.requires_grad and t.dtype == np.float32 for t in tensors)
             return {'cap': list(cap), 'tensors': [t.data.copy() for t in tensors], 'ok': ok}
         t = sg.Tensor(np.full(c['shape'], 7.0, dtype=dt), requires_grad=c['rg'])
-        r = getattr(nn.init, fn)(t, *c['args'])
+        # numeric arguments also arrive as NumPy float64 scalars (a subclass of float with the same precision), e.g. gain=np.sqrt(2.0)
+        args = [np.float64(a) if isinstance(a, float) and c['seed'] % 2 else a for a in c['args']]
+        r = getattr(nn.init, fn)(t, *args)
         ok = (r is t) and list(t.shape) == c['shape'] and t.dtype == dt and t.requires_grad == c['rg']
         return {'cap': list(cap), 'tensors': [t.data.copy()], 'ok': ok}
     finally:
